@@ -5,6 +5,7 @@ package middleware
 import (
 	"context"
 	"strconv"
+	"sync"
 
 	"github.com/pkg/errors"
 
@@ -129,3 +130,42 @@ func HarnessC13Poison() {
 		vrt.Assert(err == nil, "only after the poison topic accepted the message is success reported")
 	}
 }
+
+// HarnessC13Concurrent: two messages in flight through the same poison-wrapped handler: one fails (its
+// filter decision arrives at an arbitrary moment), the other succeeds. The failed one must end in the poison topic.
+func HarnessC13Concurrent() {
+	pub := &recPublisher{}
+	var pmu sync.Mutex
+	locked := &syncPub{mu: &pmu, p: pub}
+	mw, err := PoisonQueueWithFilter(locked, "poison", func(err error) bool { vrt.Yield(); return true })
+	vrt.Assert(err == nil, "middleware")
+	bad, good := message.NewMessage("bad", nil), message.NewMessage("good", nil)
+	h := mw(func(m *message.Message) ([]*message.Message, error) {
+		if m == bad {
+			return nil, errScripted
+		}
+		return nil, nil
+	})
+	done := make(chan struct{}, 2)
+	var errBad, errGood error
+	go func() { _, errBad = h(bad); done <- struct{}{} }()
+	go func() { _, errGood = h(good); done <- struct{}{} }()
+	<-done
+	<-done
+	vrt.Assert(errGood == nil, "the successful message passes through")
+	vrt.Assert(len(pub.calls) == 1 && len(pub.calls[0].msgs) == 1 && pub.calls[0].msgs[0] == bad, "the failed message is published to the poison topic exactly once, whatever else is in flight")
+	vrt.Assert(errBad == nil, "and only then reported as success")
+	vrt.Observe("poisoned", len(pub.calls))
+}
+
+type syncPub struct {
+	mu *sync.Mutex
+	p  *recPublisher
+}
+
+func (s *syncPub) Publish(topic string, msgs ...*message.Message) error {
+	s.mu.Lock()
+	defer s.mu.Unlock()
+	return s.p.Publish(topic, msgs...)
+}
+func (s *syncPub) Close() error { return nil }
